@@ -238,4 +238,66 @@ Section RP.
     - cbn [received flat_map app] in *. pose proof (flush_spec n s) as HF. cbn zeta in HF. destruct HF as (_ & H2 & _ & _ & _ & H6 & H7 & _).
       rewrite IH; [rewrite H6; reflexivity|rewrite H7; exact He|rewrite H2; exact Hp|exact Hd].
   Qed.
+  (* ---------- a login on a used object is the login of a fresh object ---------- *)
+  Definition shift_joins (k : nat) (js : list (list Z * nat)) : list (list Z * nat) := map (fun j => (fst j, (k + snd j)%nat)) js.
+  Definition Sim (w0 : list wev) (j0 : list (list Z * nat)) (e0 : nat) (a b : sess) : Prop :=
+    s_play a = s_play b /\ s_comp a = s_comp b /\ s_enc a = s_enc b /\ s_queue a = s_queue b /\
+    s_spawned a = s_spawned b /\ s_end a = s_end b /\ s_wire a = w0 ++ s_wire b /\
+    s_joins a = j0 ++ shift_joins (length w0) (s_joins b) /\ s_exits a = (e0 + s_exits b)%nat.
+
+  Lemma sim_flush w0 j0 e0 : forall n a b, Sim w0 j0 e0 a b -> Sim w0 j0 e0 (flush n a) (flush n b).
+  Proof.
+    induction n as [|k IH]; intros a b H; [exact H|]. cbn [flush].
+    pose proof H as (Hp & Hc & He & Hq & Hs & Hn & Hw & Hj & Hx). rewrite Hq. destruct (s_queue b) as [|o q] eqn:Eq; [exact H|].
+    apply IH. unfold Sim, upd_wire, emit. cbn [s_play s_comp s_enc s_queue s_spawned s_end s_wire s_joins s_exits].
+    rewrite Hc, He, Hw, <- app_assoc. repeat split; assumption.
+  Qed.
+
+  Lemma sim_step w0 j0 e0 a b st : Sim w0 j0 e0 a b -> Sim w0 j0 e0 (do_step a st) (do_step b st).
+  Proof.
+    intro H. pose proof H as (Hp & Hc & He & Hq & Hs & Hn & Hw & Hj & Hx).
+    unfold Reactors.do_step. rewrite Hn. destruct (s_end b) eqn:En; [exact H|].
+    destruct st as [p|n]; [|apply sim_flush; exact H].
+    rewrite Hp. destruct (s_play b) eqn:Eb.
+    - (* play *)
+      destruct p; try exact H; unfold Reactors.react_play, Sim, upd_wire;
+        cbn [s_play s_comp s_enc s_queue s_spawned s_end s_wire s_joins s_exits].
+      + rewrite He, Hq, Hs, Hw, Hj, Hx. repeat split; reflexivity.
+      + rewrite Hc, He, Hq, Hs, Hw, Hj, Hx, En. repeat split; try reflexivity; congruence.
+      + rewrite Hc, He, Hq, Hw, Hj, Hx. repeat split; reflexivity.
+      + pose proof (sim_flush w0 j0 e0 (length (s_queue b)) a b H) as (Fp & Fc & Fe & Fq & Fs & Fn & Fw & Fj & Fx).
+        rewrite Hq, Fc, Fe, Fq, Fs, Fw, Fj, Fx. repeat split; try reflexivity. lia.
+    - (* login *)
+      destruct p; try exact H; unfold Reactors.react_login, Sim, enqueue, upd_wire, emit;
+        cbn [s_play s_comp s_enc s_queue s_spawned s_end s_wire s_joins s_exits].
+      + (* IEncReq *)
+        rewrite Hc, He, Hq, Hs, Hw, Hj, Hx, <- app_assoc. repeat split; try reflexivity.
+        destruct (negb (zs_eq sid minus_one) && has_token); [|reflexivity].
+        unfold shift_joins. rewrite map_app, <- app_assoc. cbn [map fst snd]. rewrite app_length. reflexivity.
+      + rewrite He, Hq, Hs, Hw, Hj, Hx. repeat split; reflexivity.
+      + rewrite Hc, He, Hq, Hs, Hw, Hj, Hx, En. repeat split; try reflexivity; congruence.
+      + rewrite Hc, He, Hq, Hs, Hw, Hj, Hx. repeat split; reflexivity.
+      + rewrite Hc, He, Hq, Hs, Hw, Hj, Hx. repeat split; reflexivity.
+  Qed.
+
+  Lemma sim_run w0 j0 e0 : forall sched a b, Sim w0 j0 e0 a b -> Sim w0 j0 e0 (fold_left do_step sched a) (fold_left do_step sched b).
+  Proof. induction sched as [|st t IH]; intros a b H; [exact H|]. cbn [fold_left]. apply IH, sim_step, H. Qed.
+
+  (* whatever the object went through before (any state s: compression on, a cipher installed, packets queued, the play
+     state, a recorded error), after connect() every schedule of reads and flushes produces exactly what it produces on a
+     fresh object: same frames with the same compression / cipher state (appended to the earlier history), same joins
+     (positions shifted by the history), same final state *)
+  Theorem relogin_is_fresh : forall s sched,
+    let a := fold_left do_step sched (reconnect s) in
+    let b := run_session rsa secret vhash has_token f107 sched in
+    s_wire a = s_wire s ++ s_wire b /\ s_joins a = s_joins s ++ shift_joins (length (s_wire s)) (s_joins b) /\
+    s_play a = s_play b /\ s_comp a = s_comp b /\ s_enc a = s_enc b /\ s_queue a = s_queue b /\
+    s_spawned a = s_spawned b /\ s_end a = s_end b /\ s_exits a = (s_exits s + s_exits b)%nat.
+  Proof.
+    intros s sched. cbn zeta. unfold run_session.
+    assert (H0 : Sim (s_wire s) (s_joins s) (s_exits s) (reconnect s) (init)).
+    { unfold Sim, reconnect, init. cbn. rewrite !app_nil_r. repeat split; try reflexivity. lia. }
+    pose proof (sim_run _ _ _ sched _ _ H0) as (Hp & Hc & He & Hq & Hs & Hn & Hw & Hj & Hx).
+    repeat split; assumption.
+  Qed.
 End RP.
